@@ -96,6 +96,14 @@ impl Pacer {
     }
 }
 
+#[cfg(gmquic_verif)]
+impl Pacer {
+    /// Verification hook (read-only): (tokens, capacity).
+    pub(super) fn verif_state(&self) -> (usize, usize) {
+        (self.tokens, self.capacity)
+    }
+}
+
 #[cfg(test)]
 mod tests {
     use super::*;
